@@ -272,6 +272,9 @@ class Gen:
             lines.append('crate::dv_event("RustReturn", "f%d", "()");' % n)
             return " ".join(lines)
         lines.append("let r%s = %s;" % ((": " + ret_ty) if ret_ty else "", self.rust_make(sig["ret"], retv)))
+        if sig["ret"]["k"] == "opt" and sig["ret"]["s"] == "dipl" and sig["ret"]["t"]["k"] == "prim":
+            # runtime-spelled options are often handed out as clones of a stored value: Clone must keep the arm
+            lines.append("let r = r.clone();")
         lines.append('crate::dv_event("RustReturn", "f%d", &%s);' % (n, self.rust_fmt(sig["ret"], "r")))
         lines.append("r")
         return " ".join(lines)
